@@ -407,11 +407,14 @@ def neutrality(ctx):
                 for _ in range(3):
                     op(o, S)
                 gc.collect()
+                extra = (_pget, _pset, _pget_raises, A, Par, O)
                 r0 = (sys.getrefcount(S), sys.getrefcount(o))
+                e0 = [sys.getrefcount(x) for x in extra]
                 for _ in range(reps):
                     op(o, S)
                 gc.collect()
                 r1 = (sys.getrefcount(S), sys.getrefcount(o))
+                e1 = [sys.getrefcount(x) for x in extra]
             except AssertionError as e:
                 ctx.violation("C18:cell-outcome:%s" % name,
                               "cell %s: %s" % (name, e))
@@ -421,6 +424,13 @@ def neutrality(ctx):
                               "cell %s raised SystemError: %s" % (name, e))
                 continue
         d = (r1[0] - r0[0], r1[1] - r0[1])
+        de = [b - a for a, b in zip(e0, e1)]
+        if any(de):
+            ctx.violation("C18:refcount-drift-callables:%s" % name,
+                          "cell %s: reference counts of (getter, setter, "
+                          "raising getter, class A, class Par, class O) "
+                          "drifted by %r over %d repetitions" % (name, de,
+                                                                 reps))
         if d != (0, 0):
             ctx.violation("C18:refcount-drift:%s" % name,
                           "cell %s: reference count of the value drifted by "
